@@ -435,6 +435,7 @@ def walkStep (ppOf : Int → Nat → Nat) (api : Walk.Api) (acc : Walk.W × List
       (r.1, obs ++ [s!"s={showRows got}/{if r.2 then "T" else "F"}"], false)
   | ['o'] => some (w, obs ++ [walkObs w], false)
   | ['a'] => let r := Walk.await ppOf w; some (r.1, obs ++ [s!"a{r.2}"], false)
+  | ['x'] => some (Walk.stepX ppOf w (.cancel 1), obs ++ ["x"], false)   -- the caller cancels the query's context (op walkc only)
   | ['d'] =>
     let r := Walk.scanK ppOf api (drainN w.it) w
     some (r.1, obs ++ [s!"d={showRows (r.1.it.out.drop w.it.out.length)}"], false)
@@ -462,14 +463,15 @@ def walkReduce (obs : List String) (rows err : String) : String :=
   let ended := obs.any fun o => o.endsWith "/F" || o.startsWith "d=" || o.startsWith "D="
   s!"{if keep.isEmpty then "-" else ";".intercalate keep} rows={rows} err={if ended then err else "*"}"
 
-def walkAnswer (full : Bool) (consumer pf ps kind script steps : String) : String :=
+def walkAnswer (full : Bool) (consumer pf ps kind script steps : String) (cancels : Bool := false) : String :=
   match ps.toInt?, parseScript script with
   | some pageSize, some sc =>
     if !(kind == "q" || kind == "x" || kind == "xs" || kind == "xd") then "bad-op" else
     if !(consumer == "scan" || consumer == "mapscan" || consumer == "scanner") then "bad-op" else
     let api := if consumer == "scanner" then Walk.Api.scanner else Walk.Api.scan
+    if !cancels && (steps.splitOn ",").contains "x" then "bad-op" else
     let q : Qry := { ident := 1, prepared := kind != "q", skipMeta := kind == "xs", pageSize := pageSize,
-                     pageState := [], disableAutoPage := false }
+                     pageState := [], disableAutoPage := false, ctx := some 1 }
     let ppOf : Int → Nat → Nat := fun _ => prefetchPos pf
     -- beyond the script the node answers `script exhausted`
     let w0 := Walk.start ppOf sc q
@@ -521,6 +523,7 @@ def step (_ : Unit) (ws : List String) : Unit × String :=
   | ["rsess", ver, consumer, _, ps, kind, first, policy, script] => rsessAnswer ver consumer ps kind first policy script
   | ["walk", _, consumer, pf, ps, kind, script, steps] => walkAnswer false consumer pf ps kind script steps
   | ["walko", _, consumer, pf, ps, kind, script, steps] => walkAnswer true consumer pf ps kind script steps
+  | ["walkc", _, consumer, pf, ps, kind, script, steps] => walkAnswer true consumer pf ps kind script steps true
   | ["first", _, helper, pf, ps, kind, script] => firstAnswer false helper pf ps kind script
   | ["firstx", _, helper, pf, ps, kind, script] => firstAnswer true helper pf ps kind script
   | ["rsessx", ver, consumer, _, ps, kind, first, policy, script] => rsessAnswer ver consumer ps kind first policy script
